@@ -63,7 +63,7 @@ def tap():
 def cases(tier, seed):
     out = []
     rng = random.Random("c18/%s" % seed)
-    n = 6 if tier == "quick" else 40
+    n = 6 if tier == "quick" else 600
     for site in SITES:
         for i in range(n):
             out.append({"name": "fault.site/%s/%d" % (site, i), "kind": "plan", "site": site, "idx": i})
